@@ -214,6 +214,79 @@ func (env *rEnv) call(n *rNode) Value {
 			}
 		}
 		return sym(IntLit(-1))
+	case "renders":
+		// renders(bytes, names, vals): the pieces written to produce `bytes` are exactly
+		//   '{' name_i ':' val_i  (joined by ',')  '}'   over the columns whose Valid flag holds on this path, in order.
+		// names: concrete slice of []byte, vals: concrete slice of sql.NullString (bounded: concrete length).
+		bt := argT(0)
+		var pieces []Term
+		found := false
+		for _, br := range env.post.bufResults {
+			if br.T.S == bt.S {
+				pieces, found = br.Pieces, true
+			}
+		}
+		if !found {
+			return env.fail("renders: value was not produced by a modelled buffer")
+		}
+		names := e.sliceElems(env.post, env.eval(n.Args[1]))
+		vals := e.sliceElems(env.post, env.eval(n.Args[2]))
+		if len(names) != len(vals) {
+			return env.fail("renders: names/values of different length")
+		}
+		nst := e.nullStringType()
+		var want []Term
+		want = append(want, byteLit(e, '{'))
+		e.byteLits['{'], e.byteLits['}'], e.byteLits[','], e.byteLits[':'] = true, true, true, true
+		first := true
+		for i, v := range vals {
+			sv, ok := v.(VStruct)
+			if !ok || nst == nil {
+				return env.fail("renders: value %d is not a NullString", i)
+			}
+			var valid, str Term
+			for fi := 0; fi < nst.NumFields(); fi++ {
+				if fs, ok := sv.F[fi].(VSym); ok {
+					if nst.Field(fi).Name() == "Valid" {
+						valid = fs.T
+					} else if nst.Field(fi).Name() == "String" {
+						str = fs.T
+					}
+				}
+			}
+			kn := 0
+			if valid.IsTrue() {
+				kn = 1
+			} else if valid.IsFalse() {
+				kn = -1
+			} else {
+				kn = env.post.known(valid)
+			}
+			if kn == 0 {
+				return env.fail("renders: validity of column %d is not decided on this path", i)
+			}
+			if kn < 0 {
+				continue
+			}
+			if !first {
+				want = append(want, byteLit(e, ','))
+			}
+			first = false
+			nm, ok := names[i].(VSym)
+			if !ok {
+				return env.fail("renders: name %d", i)
+			}
+			want = append(want, nm.T, byteLit(e, ':'), App(SBytes, "b.ofstr", str))
+		}
+		want = append(want, byteLit(e, '}'))
+		if len(want) != len(pieces) {
+			return sym(TFalse)
+		}
+		res := TTrue
+		for i := range want {
+			res = And(res, Eq(want[i], pieces[i]))
+		}
+		return sym(res)
 	case "updkey", "updval":
 		// key / value of the most recent update of a scalar map on this path
 		for i := len(env.post.trace) - 1; i >= 0; i-- {
@@ -782,4 +855,15 @@ func (env *rEnv) mapHas(mv VMap, key Value) Term {
 		return Select(obj.Has, kt.T, SBool)
 	}
 	return Not(Eq(Select(obj.Arr, kt.T, obj.ValSort), obj.Absent))
+}
+
+func (e *Engine) nullStringType() *types.Struct {
+	for _, p := range e.prog.AllPackages() {
+		if p.Pkg.Path() == "database/sql" {
+			if tn := p.Pkg.Scope().Lookup("NullString"); tn != nil {
+				return tn.Type().Underlying().(*types.Struct)
+			}
+		}
+	}
+	return nil
 }
